@@ -94,12 +94,11 @@ def check_bijection(case, ctx):
     s2 = bc.prepare(case2)
     static_audit(obj, who)
     methods = list(METHODS)
-    if not s.invertible:
-        methods = methods[:2]
     if getattr(s, "fwd_only_dir", None) == "inverse":
         methods = methods[2:]
-    elif getattr(s, "fwd_only_dir", None) == "transform":
+    elif getattr(s, "fwd_only_dir", None) == "transform" or not s.invertible:
         methods = methods[:2]
+    # conditioning guard: a map that (de)magnifies by more than e^12 per element is rounding-dominated
     tol = TOL * (1e4 if s.numinv else 1)
     # y for the inverse direction: image of x (computed under jit first as well)
     y = x
@@ -110,6 +109,7 @@ def check_bijection(case, ctx):
     if not np.all(np.isfinite(np.asarray(y))):
         ctx.inconcl("nonfinite")
         return False
+    methods = sorted(methods, key=lambda m: (not m.endswith("log_det"), m))
     for m in methods:
         arg = x if m.startswith("transform") else y
         # 1. jit FIRST (bound-method form, as users write it), then eager, then jit again
@@ -119,6 +119,9 @@ def check_bijection(case, ctx):
         if not all(np.all(np.isfinite(v)) for v in flat(e1)):
             ctx.inconcl("nonfinite")
             continue
+        if m.endswith("log_det") and abs(float(flat(e1)[1])) / max(1, np.asarray(arg).size) > 12.0:
+            ctx.inconcl("ill_conditioned")  # |log-det| per element > 12: rounding-dominated (cf. C08)
+            return False
         if not near(j1, e1, tol) or not near(j2, e1, tol):
             raise Violation(f"C14|{who}|jit_vs_eager|{m}", f"jit {[v.tolist() for v in flat(j1)]} eager {[v.tolist() for v in flat(e1)]}")
         # 2. repeated calls bit-identical
@@ -153,7 +156,7 @@ def check_bijection(case, ctx):
     # 5. flatten / unflatten
     leaves, td = jax.tree_util.tree_flatten(obj)
     obj_b = jax.tree_util.tree_unflatten(td, leaves)
-    m0 = methods[0]
+    m0 = [m for m in methods if not m.endswith("log_det")][0]
     a0 = x if m0.startswith("transform") else y
     ref = getattr(obj, m0)(a0, cj)
     if not same_bits(getattr(obj_b, m0)(a0, cj), ref):
@@ -258,8 +261,8 @@ def dist_cases(draw):
 
 def run(ctx):
     q = ctx.tier == "quick"
-    run_hypothesis(ctx, bc.leaf_cases(inv=False), oracle, 28 if q else 500, "C14-leaves")
-    run_hypothesis(ctx, bc.tree_cases(3, 7, inv=False) if q else bc.tree_cases(4, 12, inv=False), oracle, 8 if q else 150,
+    run_hypothesis(ctx, bc.leaf_cases(inv=False), oracle, 20 if q else 500, "C14-leaves")
+    run_hypothesis(ctx, bc.tree_cases(3, 7, inv=False) if q else bc.tree_cases(4, 12, inv=False), oracle, 6 if q else 150,
                    "C14-trees")
-    run_hypothesis(ctx, bc.flow_cases(), oracle, 3 if q else 50, "C14-flows")
-    run_hypothesis(ctx, dist_cases(), oracle, 7 if q else 120, "C14-dists")
+    run_hypothesis(ctx, bc.flow_cases(), oracle, 2 if q else 50, "C14-flows")
+    run_hypothesis(ctx, dist_cases(), oracle, 5 if q else 120, "C14-dists")
